@@ -1261,6 +1261,10 @@ class Engine:
             return getattr(base, a)
         if a == '__class__' and isinstance(base, VU):
             return VConst(('class', '<opaque>'))
+        if isinstance(base, VU) and base.sort == 'elem' and a in self.c.get('elem_attrs', {}):
+            # a read-only attribute of an opaque object, named by the contract as an uninterpreted function of the object (listed as assumed)
+            from .sorts import ELEM
+            return VU(z3.Function('ufe_' + self.c['elem_attrs'][a], ELEM, ELEM)(base.t), 'elem')
         if a == '__class__' and isinstance(base, (VSlice, VInt, VBool, VList, VTuple)):
             return VConst(('builtin', {VSlice: 'slice', VInt: 'int', VBool: 'bool', VList: 'list', VTuple: 'tuple'}[type(base)]))
         if isinstance(base, VRec):
